@@ -75,7 +75,9 @@ func (c19) Run(c *Ctx, i int) CaseResult {
 		// several joins in one request, through single objects and through lists, in either order
 		`{ me { lastName } allUsers { lastName } }`, `{ allUsers { nick } me { nick photos { likes } } }`,
 		`{ topPhoto { likes owner { nick } } me { lastName favorite { likes } } allUsers { lastName } }`,
-		`{ me { friends { nick } lastName } user(id: "u2") { lastName photos { likes } } }`}[r.Intn(8)]
+		`{ me { friends { nick } lastName } user(id: "u2") { lastName photos { likes } } }`,
+		// the client asks for id under another response key at a join (the plain id the planner adds is not the client's)
+		`{ me { uid: id lastName } }`, `{ allUsers { uid: id nick } me { key: id lastName } }`}[r.Intn(10)]
 	fault := []string{"none", "none", "dependent", "root"}[r.Intn(4)]
 	single := r.Intn(5) == 0
 	if single {
